@@ -275,6 +275,13 @@ def generate():
     else:
         raise ExtractError("handleWrite: cannot tell how the deferred half-close is performed")
     handoff(fc, "forceClose")
+    # the delayed forced close: what the timer's callback holds of the connection
+    ra = [n for n in walk(body_of(fcd)) if n.get("kind") == "CXXMemberCallExpr" and kids(n)
+          and strip(kids(n)[0]).get("kind") == "MemberExpr" and strip(kids(n)[0]).get("name") in ("runAfter", "runAt")]
+    if len(ra) != 1:
+        raise ExtractError("forceCloseWithDelay: expected one runAfter/runAt call")
+    h = hold_of(ra[0])
+    out.append("/-- `forceCloseWithDelay`: the timer callback holds %s -/\ndef forceCloseDelayHold : Hold := .%s\n" % (HOLD_TEXT[h], h))
     notify_hold([sil, hw], "writeCompleteCallback_", "wc", "the write-complete notification (`sendInLoop`, `handleWrite`)")
     notify_hold([sil], "highWaterMarkCallback_", "hwm", "the high-water-mark notification (`sendInLoop`)")
     handoff(the_function(docs, "startRead"), "startRead")
